@@ -5,6 +5,7 @@ import (
 	"os"
 	"strings"
 	"sync"
+	"sync/atomic"
 )
 
 func envBase() []string { return os.Environ() }
@@ -86,6 +87,10 @@ func Discharge(results []*Result, timeoutMs int, workers int) {
 	}
 	ch := make(chan Job)
 	var wg sync.WaitGroup
+	// a few undecided obligations may be the machine's load: they get one
+	// longer retry; many undecided obligations are not, and are reported as
+	// they are
+	var retries int32
 	for i := 0; i < workers; i++ {
 		wg.Add(1)
 		go func() {
@@ -106,7 +111,7 @@ func Discharge(results []*Result, timeoutMs int, workers int) {
 					t = 3000
 				}
 				j.O.Ans = Solve(q, t, false)
-				if !j.O.Canary && j.O.Ans.Result != "unsat" && j.O.Ans.Result != "sat" {
+				if !j.O.Canary && j.O.Ans.Result != "unsat" && j.O.Ans.Result != "sat" && atomic.AddInt32(&retries, 1) <= 12 {
 					// undecided: one retry with a longer limit, bypassing the
 					// cache, before the obligation is reported (a loaded
 					// machine must not turn into an alarm)
